@@ -78,6 +78,17 @@ def gen(seed, idx, tier):
         ops.append({"k": "sd", "t": 0.0, "p": 0, "ch": "m", "e": [["offer", k[0], k[1], k[2], k[3], r.choice([1, 3, INF_TTL])]]})
     t_start = r.choice([0.0, 0.0, 0.05])
     ops.append({"k": "call", "t": t_start, "f": "start", "a": []})
+    if r.random() < 0.15:
+        # a service comes, goes and comes back within its first TTL, while the rounds for another one go on: the
+        # deadline of the first offer passes with the second offer alive
+        timings["REPETITIONS_MAX"] = r.choice([3, 4])
+        timings["REPETITIONS_BASE_DELAY"] = 0.2
+        k = r.choice(KEYS)
+        p0, ch0 = r.randrange(3), r.choice("mu")
+        t0 = round(t_start + r.uniform(0.0, 0.4), 6)
+        ops.append({"k": "sd", "t": t0, "p": p0, "ch": ch0, "e": [["offer", k[0], k[1], k[2], k[3], 1]]})
+        ops.append({"k": "sd", "t": round(t0 + r.choice([0.05, 0.3]), 6), "p": p0, "ch": ch0, "e": [["offer", k[0], k[1], k[2], k[3], 0]]})
+        ops.append({"k": "sd", "t": round(t0 + r.choice([0.35, 0.6, 0.9]), 6), "p": p0, "ch": ch0, "e": [["offer", k[0], k[1], k[2], k[3], r.choice([3, INF_TTL])]]})
     plan = {"engine": "single", "property": ID, "class": "random", "seed": seed, "cfg": cfg, "ops": ops, "until": 6.0}
     horizon = 5.0
     aligned = r.random() < 0.8
